@@ -47,9 +47,9 @@ var c17Configs = [][2]int{{1, 1}, {2, 1}, {2, 2}, {3, 2}}
 
 func c17Sizes(d int, tier string) []int {
 	ds := d * ecStripe
-	s := []int{0, 1, ds - 1, ds, ds + 1, 2 * ds, 2*ds + 7}
+	s := []int{0, 1, ds - 1, ds, ds + 1, 2*ds + 7}
 	if tier == "thorough" {
-		s = append(s, 3*ds-1, 5*ds+1, 20*ds+3, 200*1024)
+		s = append(s, 2*ds, 3*ds-1, 5*ds+1, 20*ds+3, 200*1024)
 	}
 	return s
 }
@@ -522,7 +522,7 @@ func c17Cases(sp c17Spec, tier string, seed uint64, nFrames int) []c17Case {
 			add("mixture", fs)
 		}
 	}
-	if tier == "thorough" { // gigabyte-sized payloadLen, one shard at a time
+	if tier == "thorough" && sp.Size == sp.D*ecStripe+1 { // gigabyte-sized payloadLen, one shard at a time (one size per configuration: slow)
 		for f := 0; f < nFrames && f < 1; f++ {
 			for s := 0; s < total; s++ {
 				add("huge-length", []c17Fault{{s, fmt.Sprintf("flip:frame-payloadlen:huge@%d", f)}})
@@ -694,7 +694,7 @@ func runC17(tier, replay string) {
 		wb := (jobs[b].spec.C17.D + jobs[b].spec.C17.P) * (jobs[b].spec.C17.P + 1)
 		return wa > wb
 	})
-	runJobs(pr, jobs, 6, 4*time.Minute)
+	runJobs(pr, jobs, 8, 4*time.Minute)
 	if r.SeenCount("configs") != len(c17Configs) {
 		r.Inconclusive("not every (data,parity) configuration was exercised")
 	}
